@@ -1024,7 +1024,7 @@ def rule_setbound(ctx):
     why = "returns %s, which is not a set intersection: repeated (onset, midi) pairs are counted more than once and a cell can exceed 1" % tm.show(t, 3)
     if t.op == "bin" and t.a[0] == "&":
         sides = [t.a[1], t.a[2]]
-        if all(x.op == "call" and call_name(x) in ("builtins.set", "builtins.frozenset") for x in sides):
+        if all((x.op == "call" and call_name(x) in ("builtins.set", "builtins.frozenset")) or (x.op == "comp" and x.a[0] == "set") for x in sides):
             ps = [tm.params_of(x) for x in sides]
             good = {"occ_P"} in ps and {"occ_Q"} in ps
             why = "returns set(occ_P) & set(occ_Q)"
